@@ -60,6 +60,9 @@ def gen_cases(tier, seed):
         # contexts are built with the std.sequential wrapper or with the core cohdl.sequential_context
         c['style'] = {'A': rnd.choice(['std', 'core']) if not any(w[0] == 'alwaysA' for w in c['w']) else 'std',
                       'B': rnd.choice(['std', 'core'])}
+        # an extra observer in context A: an always *expression* with a run-time indexed read combined with another operand
+        # (its index intermediate must be turned into a signal together with the hoisted statement)
+        c['rtidx_always'] = c['style']['A'] == 'std' and rnd.random() < 0.3
     if tier == 'quick':
         rnd.shuffle(cases)
         cases = cases[:2400]
@@ -138,6 +141,9 @@ def build(case):
         lines[sites[0]].append("__DEFTEMP__")
         for s in sites[1:]:
             lines[s].append("self.obs <<= t")
+    if case.get('rtidx_always'):
+        lines['A'].append("pk = cohdl.always(self.x[self.d] & self.a)")
+        lines['A'].append("self.obs3 <<= pk")
     readers = list(case['r'])
     for r in readers:
         if tgt == 'temp':
@@ -151,7 +157,8 @@ def build(case):
          "            self.o1 <<= self.i", "            self.o2 <<= ~self.i", "            self.w1 <<= self.v", "            self.w2 <<= ~self.v",
          "            self.s1 <<= self.v[1:0]", "            self.s2 <<= self.v[3:2]", "",
          f"class {cname}(Entity):", "    clk = Port.input(Bit)", "    a = Port.input(Bit)", "    d = Port.input(Unsigned[2])",
-         "    x = Port.input(BitVector[4])", "    obs = Port.output(BitVector[4], default=Null)", "    obs2 = Port.output(BitVector[4], default=Null)"]
+         "    x = Port.input(BitVector[4])", "    obs = Port.output(BitVector[4], default=Null)", "    obs2 = Port.output(BitVector[4], default=Null)",
+         "    obs3 = Port.output(Bit, default=Null)"]
     if tgt == 'outport':
         L.append("    t = Port.output(BitVector[4], default=Null)")
     elif tgt == 'inport':
@@ -265,8 +272,9 @@ def run_case(case):
         except (VhdlSyntaxError, ElabError) as e:
             viol.append(violation('emitted-text-not-analysable', f"{e}; case={case}", source=src, vhdl=comp.text))
             return result(viol=viol, cnt=dict(cnt))
+        # (an identifier that is not visible where it is used is a process variable referenced from outside its process)
         drv = [i for i in sim.issues if i[0] in ('multiple-drivers', 'variable-outside-its-process', 'variable-outside-process',
-                                                 'write-in-port')]
+                                                 'write-in-port', 'undeclared-identifier')]
         for kind, det in sim.issues:
             cnt['vcheck:' + kind] += 1
         klass = '+'.join(sorted(set(w[0] for w in case['w'])))
